@@ -313,6 +313,132 @@ def _worker(tier, is_canary):
     return out
 
 
+def dependency_worker(arg):
+    """Frame / dependency contract of the REAL Module.step (the modularity assumption behind "the three routes hand identical
+    arrays to the simulation"): the new states and everything handed to the voltage solver depend on parameter and state VALUES
+    only through the `params` / `states` arguments - never through the module's own tables or their array copies
+    (`self.nodes`, `self.edges`, `self.jaxnodes`, `self.jaxedges`), which `set()` changes but `data_set` / trainables do not.
+    Method: the tables hold the symbols key[row]; step() is called with FRESH symbols P!key[i] / S!key[i] in params / states;
+    no table symbol may occur free in any output term."""
+    tier, canary = arg
+    from . import common
+    from ..modsym import SymModule, free_vars
+    from ..sym import Ctx, Sym, SymArray
+    out = {"results": [], "error": "", "reached": {}, "witness": {}, "evals": 0, "distinct": 0}
+    undo = common.apply_canary(*canary) if canary else None
+    try:
+        import jax
+        jax.config.update("jax_enable_x64", True)
+        import jaxley as jx
+        import jaxley.channels as CH
+        import jaxley.synapses as SY
+        from jaxley.connect import connect
+        comp = jx.Compartment()
+        cell = jx.Cell([jx.Branch(comp, ncomp=n) for n in (1, 2)], parents=[-1, 0])
+        for cls in (CH.HH, CH.Leak, CH.Na, CH.K, CH.Km, CH.CaL, CH.CaT):
+            cell.insert(cls())
+        net = jx.Network([cell, cell])
+        connect(net.cell(0).branch(0).comp(0), net.cell(1).branch(1).comp(1), SY.IonotropicSynapse())
+        connect(net.cell(1).branch(0).comp(0), net.cell(0).branch(1).comp(0), SY.TestSynapse())
+        connect(net.cell(0).branch(1).comp(0), net.cell(1).branch(0).comp(0), SY.TanhRateSynapse())
+
+        def fresh_like(d, pre):
+            new = {}
+            for k, v in d.items():
+                a = np.asarray(v, dtype=object) if isinstance(v, SymArray) else None
+                if a is not None and a.size and all(isinstance(x, Sym) for x in a.ravel()):
+                    flat = [Sym(z3.Real(f"{pre}!{k}[{i}]")) for i in range(a.size)]
+                    new[k] = SymArray(np.asarray(flat, dtype=object).reshape(a.shape))
+                else:
+                    new[k] = v
+            return new
+
+        def terms(x, acc):
+            if isinstance(x, Sym):
+                acc.append(x)
+            elif isinstance(x, SymArray):
+                for y in np.asarray(x, dtype=object).ravel():
+                    if isinstance(y, Sym):
+                        acc.append(y)
+            elif isinstance(x, dict):
+                for y in x.values():
+                    terms(y, acc)
+            elif isinstance(x, (list, tuple)):
+                for y in x:
+                    terms(y, acc)
+            elif isinstance(x, np.ndarray) and x.dtype == object:
+                for y in x.ravel():
+                    terms(y, acc)
+            return acc
+
+        for label, mod in (("cell", cell), ("network", net)):
+            for solver, vs in (("bwd_euler", "jaxley.thomas"), ("crank_nicolson", "jax.sparse"), ("fwd_euler", "jaxley.thomas")):
+                if solver == "fwd_euler" and label != "cell":
+                    continue
+                Ctx.reset()
+                sm = SymModule(mod)
+                sm.prepare(voltage_solver=vs)
+                table_syms = set()
+                for tab in (sm.nodes, sm.edges):
+                    for c in tab.columns:
+                        for x in tab[c].to_numpy():
+                            if isinstance(x, Sym):
+                                table_syms |= free_vars(x)
+                sm.params = fresh_like(sm.params, "P")
+                S = fresh_like(sm.states, "S")
+                I = SymArray(np.asarray([Sym(z3.Real("I0"))], dtype=object))
+                new = sm.step(externals={"i": I}, external_inds={"i": np.asarray([1])}, solver=solver, voltage_solver=vs, states=S)
+                out["reached"].update(sm.rt.reached)
+                acc = terms(new, [])
+                for kind, kw, H in sm.solver_calls:
+                    terms(kw, acc)
+                used = set()
+                for t in acc:
+                    used |= free_vars(t)
+                leaked = sorted(used & table_syms)
+                n_p = len([v for v in used if v.startswith("P!")])
+                out["results"].append(_res(f"Module.step[{label},{solver},{vs}]:outputs depend on parameter and state values only through the params/states arguments (no value read from the module's tables or jaxnodes/jaxedges)",
+                                           not leaked, f"table symbols in the outputs: {leaked[:8]}", backend="structural"))
+                out["results"].append(_res(f"Module.step[{label},{solver},{vs}]:non-vacuous - the outputs mention {n_p} symbols of the params argument and {len(acc)} output terms were inspected",
+                                           n_p > 10 and len(acc) > 10, backend="structural"))
+    except Exception as e:
+        out["error"] = f"{type(e).__name__}: {e}\n{traceback.format_exc(limit=8)}"
+    finally:
+        if undo:
+            undo()
+    return out
+
+
+def native_dependency():
+    """native replay: a kinetic parameter read inside update_states (vt of Na/K) given through data_set must simulate like set()"""
+    try:
+        import jax
+        jax.config.update("jax_enable_x64", True)
+        import jaxley as jx
+        from jaxley.channels import K, Leak, Na
+        res = {}
+        for how in ("set", "data_set"):
+            comp = jx.Compartment()
+            for c in (Na(), K(), Leak()):
+                comp.insert(c)
+            comp.record("v", verbose=False)
+            comp.stimulate(jx.step_current(0.1, 1.0, 0.05, 0.025, 2.0), verbose=False)
+            if how == "set":
+                comp.set("vt", -50.0)
+                res[how] = np.asarray(jx.integrate(comp, delta_t=0.025))
+            else:
+                ps = comp.data_set("vt", -50.0, None)
+                res[how] = np.asarray(jx.integrate(comp, delta_t=0.025, param_state=ps))
+        d = float(np.max(np.abs(res["set"] - res["data_set"])))
+        return {"input": "Na+K+Leak compartment, vt = -50 via set() vs data_set()", "max_abs_voltage_difference_mV": d, "reproduced": bool(d > 1e-9)}
+    except Exception as e:
+        return {"reproduced": False, "reason": f"{type(e).__name__}: {str(e)[:120]}"}
+
+
+CANARIES_D = [
+    ("jaxley.modules.base:Module._channel_currents", "src", "channel_params[p] = params[p][indices]", "channel_params[p] = self.jaxnodes[p][indices]"),
+]
+
 CANARIES = [
     ("jaxley.modules.base:Module.get_all_parameters", "src", "params[key] = params[key].at[inds].set(set_param[:, None])", "params[key] = params[key].at[inds].add(set_param[:, None])"),
     ("jaxley.modules.base:Module.data_set", "src", "\"indices\": np.atleast_2d(viewed_inds[not_nan]),", "\"indices\": np.atleast_2d(viewed_inds),"),
@@ -361,14 +487,36 @@ def main(tier):
     for can, oc in zip(CANARIES, outs[1:]):
         ref = oc[0] == "ok" and not oc[1]["error"] and any(r["status"] != "proved" for r in oc[1]["results"])
         ck.canary(f"{can[0]}: {can[2][:50]!r} -> {can[3][:50]!r}", ref, oc)
+    outs_d = run_units("jxverif.props.C10", "dependency_worker", [(tier, None)] + [("quick", c) for c in CANARIES_D])
+    od = outs_d[0]
+    if od[0] != "ok" or od[1]["error"]:
+        ck.error(str(od[1] if od[0] != "ok" else od[1]["error"])[:900])
+    else:
+        rp = None
+        for r in od[1]["results"]:
+            ck.add(r)
+            if r["status"] == "refuted":
+                rp = rp or native_dependency()
+                ck.violation(r["name"], {"solver": r["backend"], "solver_output": r["detail"], "kind": "c10", "replay_module": "jxverif.props.C10", "replay_fn": "replay_dependency", "replay": rp},
+                             reproduced=rp.get("reproduced", False))
+        ck.extra.setdefault("code_reached", {}).update({k: v for k, v in od[1]["reached"].items() if k.startswith("jaxley")})
+        ck.add_function("jaxley.modules.base.Module.step (frame: reads values only from params/states)", "body discharged" if not any(r["status"] == "refuted" for r in od[1]["results"]) else "body NOT discharged",
+                        len(od[1]["results"]))
+    for can, oc in zip(CANARIES_D, outs_d[1:]):
+        ref = oc[0] == "ok" and not oc[1]["error"] and any(r["status"] != "proved" for r in oc[1]["results"])
+        ck.canary(f"{can[0]}: {can[2][:50]!r} -> {can[3][:50]!r}", ref, oc)
     for f in ("jaxley.modules.base.Module.get_all_parameters", "jaxley.modules.base.Module.get_all_states", "jaxley.modules.base.Module.to_jax", "jaxley.utils.cell_utils.params_to_pstate"):
         ck.add_function(f, "body discharged" if not ck.violations else "body NOT discharged")
     for f in ("jaxley.modules.base.Module.set", "jaxley.modules.base.Module.data_set", "jaxley.modules.base.Module.make_trainable", "jaxley.modules.base.Module.write_trainables"):
         ck.add_function(f, "bounded")
-    ck.trusted = ["downstream simulation is a function of the arrays returned by get_all_parameters/get_all_states (modularity; the rest of the chain is C01/C09/C12)",
+    ck.trusted = ["downstream simulation is a function of the arrays returned by get_all_parameters/get_all_states: for one Module.step this is now an obligation (frame / dependency contract on the real step, all channels and synapse types present); for the scan around it it is C06/C07",
                   "view denotations come from an independent oracle over the construction numbers; general view correctness is C11"]
     return ck.finish()
 
 
 def replay(p):
     return native_f2()
+
+
+def replay_dependency(p):
+    return native_dependency()
